@@ -6,6 +6,7 @@ package main
 import (
 	"fmt"
 	"go/constant"
+	"go/token"
 	"go/types"
 	"sort"
 	"strings"
@@ -461,4 +462,115 @@ func ruleNoReflectAssign(w *World, r *Recorder, rule string) {
 	if n == 0 {
 		r.Prove(rule, "encoding#no-reflect-assign", "-", "no reflect.Value mutator (Set*, Grow, Clear, Copy) is called anywhere in the encoding package", false)
 	}
+}
+
+// ruleNullEntryIsNilTest: the container's walks report a "null entry" for an
+// element exactly when the element is nil. A bool-returning in-repo helper
+// that the walks of the component container call on the current element is
+// such a predicate only if every value it returns is `false`, the result of
+// `param == nil`, `true` under that test, or reflect.ValueOf(param).IsNil()
+// on the parameter itself (no Indirect / Elem / IsZero: an allocated but
+// empty component is not a null entry — it lacks mandatory fields, which is a
+// different error class).
+func ruleNullEntryIsNilTest(w *World, r *Recorder, rule string) {
+	seen := map[*ssa.Function]bool{}
+	for _, fn := range w.Funcs {
+		if fn.Signature.Recv() == nil || !strings.Contains(fn.Signature.Recv().Type().String(), "SwComponents[") {
+			continue
+		}
+		if bn := baseName(fn); bn != "Validate" && bn != "Values" {
+			continue
+		}
+		for _, b := range fn.Blocks {
+			for _, in := range b.Instrs {
+				c, ok := in.(*ssa.Call)
+				if !ok {
+					continue
+				}
+				h := c.Call.StaticCallee()
+				if h == nil || h.Blocks == nil || !w.InRepo(h) || seen[h] || len(h.Params) != 1 || h.Signature.Results().Len() != 1 || !isBoolType(h.Signature.Results().At(0).Type()) {
+					continue
+				}
+				// used as the condition of a branch
+				isCond := false
+				for _, ref := range *c.Referrers() {
+					if _, ok := ref.(*ssa.If); ok {
+						isCond = true
+					}
+				}
+				if !isCond {
+					continue
+				}
+				seen[h] = true
+				ok2, why := nilPredicate(h)
+				r.Check(ok2, rule, fnKey(h)+"#null-entry-predicate", w.FnPos(h), "true exactly for a nil element (== nil, or reflect.ValueOf(x).IsNil() on the element itself)", "the predicate the container walks use for 'null entry' is not a nil test of the element: "+why)
+			}
+		}
+	}
+}
+
+func nilPredicate(h *ssa.Function) (bool, string) {
+	prm := ssa.Value(h.Params[0])
+	isParam := func(v ssa.Value) bool {
+		for i := 0; i < 4; i++ {
+			switch x := v.(type) {
+			case *ssa.ChangeInterface:
+				v = x.X
+				continue
+			case *ssa.MakeInterface:
+				v = x.X
+				continue
+			}
+			break
+		}
+		return v == prm
+	}
+	var okVal func(v ssa.Value, at *ssa.BasicBlock, seen map[ssa.Value]bool) (bool, string)
+	okVal = func(v ssa.Value, at *ssa.BasicBlock, seen map[ssa.Value]bool) (bool, string) {
+		switch x := v.(type) {
+		case *ssa.Const:
+			if x.Value != nil && x.Value.Kind() == constant.Bool {
+				if !constant.BoolVal(x.Value) {
+					return true, ""
+				}
+				// true: only where the parameter is known to be nil
+				if knownNilAt(prm, at) {
+					return true, ""
+				}
+				return false, "returns true where the element is not known to be nil"
+			}
+		case *ssa.BinOp:
+			if x.Op == token.EQL && (isParam(x.X) && isNilConst(x.Y) || isParam(x.Y) && isNilConst(x.X)) {
+				return true, ""
+			}
+		case *ssa.Call:
+			if calleeName(&x.Call) == "(reflect.Value).IsNil" && len(x.Call.Args) == 1 {
+				if vo, ok := x.Call.Args[0].(*ssa.Call); ok && calleeName(&vo.Call) == "reflect.ValueOf" && len(vo.Call.Args) == 1 && isParam(vo.Call.Args[0]) {
+					return true, ""
+				}
+				return false, "IsNil() is not asked of reflect.ValueOf(element) itself"
+			}
+			return false, "the result comes from " + calleeName(&x.Call)
+		case *ssa.Phi:
+			if seen[x] {
+				return true, ""
+			}
+			seen[x] = true
+			for i, e := range x.Edges {
+				if ok, why := okVal(e, x.Block().Preds[i], seen); !ok {
+					return false, why
+				}
+			}
+			return true, ""
+		}
+		return false, "unrecognised result " + v.String()
+	}
+	for _, b := range h.Blocks {
+		if ret, ok := b.Instrs[len(b.Instrs)-1].(*ssa.Return); ok {
+			if ok2, why := okVal(ret.Results[0], b, map[ssa.Value]bool{}); !ok2 {
+				return false, why
+			}
+		}
+	}
+	return true, ""
 }
